@@ -145,10 +145,11 @@ def prune_builds(keep=3):
 # A second build configuration of library and harness (e.g. ["NDEBUG"]: what the project's Release / RelWithDebInfo builds define).
 # Objects and drivers of a configuration live in their own directories.
 CONFIG_DEFS = []
+CONFIG_MIXED = False        # True: only the LIBRARY is compiled with CONFIG_DEFS, the client (harness) without — a release library used by a debug client
 
 
-def variant_dir(variant):
-    return variant + ("".join("-" + x.lower() for x in CONFIG_DEFS) if CONFIG_DEFS else "")
+def variant_dir(variant, driver=False):
+    return variant + ("".join("-" + x.lower() for x in CONFIG_DEFS) if CONFIG_DEFS else "") + ("-mixed" if (driver and CONFIG_MIXED and CONFIG_DEFS) else "")
 
 
 def _compile(src, obj, flags):
@@ -193,11 +194,11 @@ NCPU = os.cpu_count() or 4
 
 def build_driver(name, variant="plain", with_lib=True, extra=(), srcs=None, defines=(), parts=0):
     """Compile harness/<name>.cxx against the current /repo and link it."""
-    d = os.path.join(build_dir(), variant_dir(variant))
+    d = os.path.join(build_dir(), variant_dir(variant, driver=True))
     os.makedirs(d, exist_ok=True)
     exe = os.path.join(d, name)
     objs = build_lib(variant) if with_lib else []
-    with Lock("drv-%s-%s" % (name, variant_dir(variant))):
+    with Lock("drv-%s-%s" % (name, variant_dir(variant, driver=True))):
         srcs = srcs or [os.path.join(HARNESS, name + ".cxx")]
         deps = list(srcs) + [f for f in _files(HARNESS) if f.endswith((".h", ".inc", ".def"))] + \
             _files(os.path.join(build_dir(), "gen"))
@@ -207,7 +208,7 @@ def build_driver(name, variant="plain", with_lib=True, extra=(), srcs=None, defi
         t0 = time.time()
         base = [CXX, "-std=c++20", "-I", os.path.join(REPO, "include"), "-I", HARNESS,
                 "-I", os.path.join(build_dir(), "gen"),
-                "-D" + GUARD, "-w"] + ["-D" + x for x in defines] + ["-D" + x for x in CONFIG_DEFS] + VARIANTS[variant] + list(extra)
+                "-D" + GUARD, "-w"] + ["-D" + x for x in defines] + ([] if CONFIG_MIXED else ["-D" + x for x in CONFIG_DEFS]) + VARIANTS[variant] + list(extra)
         part_objs = []
         if parts:
             # the generated dispatcher is split into translation units compiled in parallel
